@@ -56,6 +56,15 @@ def subharnesses(tier):
                          {'count': c, 'current': cur, 'susp': 'sym',
                           'outcome': 'ok', 'last_waited': False,
                           'policy': None, 'second': True}))
+    # the monitor is re-configured by its ZooKeeper data watch while the
+    # process runs (real _run_sync with its watch callbacks), then the app
+    # keeps losing instances: the creates of the following evaluations stay
+    # within the token bucket of the NEW target
+    for n0, n1 in ((5, 1), (3, 1), (1, 3), (2, 2), (4, 2), (0, 2), (3, 0)):
+        for cur0 in (0, n0):
+            subs.append(('reconfig-%d-to-%d-cur%d' % (n0, n1, cur0),
+                         {'kind': 'reconfig', 'n0': n0, 'n1': n1,
+                          'cur0': cur0}))
     subs.append(('no-monitor', {'count': None, 'current': 2, 'susp': 'sym',
                                 'outcome': 'ok', 'last_waited': False,
                                 'policy': None}))
@@ -80,12 +89,10 @@ def _x3600(v):
         return symx._zint(v) * 3600
 
 
-def harness(S, spec):
-    import logging
-    logging.disable(logging.CRITICAL)
-    from treadmill import restclient
-    from treadmill.sproc import appmonitor as am
-    am.time = VT
+_REAL = {}
+
+
+def _install_numeric_shims(S, am):
     if not S.concrete:
         class _Math:
             """math.floor honours __floor__; CrossHair would realise the
@@ -114,6 +121,155 @@ def harness(S, spec):
         am.math = _m
         am.int = int
         am.round = round
+
+
+class _Stop(Exception):
+    pass
+
+
+def harness_reconfig(S, spec):
+    """Real _run_sync: ChildrenWatch / ExistingDataWatch callbacks captured
+    from a fake client, the loop driven from time.sleep."""
+    from treadmill import context
+    from treadmill.sproc import appmonitor as am
+    n0, n1 = spec['n0'], spec['n1']
+    EVALS = 3                       # evaluations after the re-configuration
+    t = [S.int('t%d' % i, NOW0, NOW0 + 10 ** 6) for i in range(EVALS + 3)]
+    for a, b in zip(t, t[1:]):
+        S.require(S.z(a) <= S.z(b))
+    # t[0] first configuration, t[1] first evaluation, t[2] re-configuration,
+    # t[3..] evaluations
+    children = {}
+    data_watch = {}
+    calls = []
+    script = {'step': 0}
+
+    def _count(n):
+        return n if S.concrete else Q(n, 1)
+
+    am.yaml = type('Y', (), {'load': staticmethod(
+        lambda data: {'count': _count(int(data))})})
+
+    class _ZK:
+        def ChildrenWatch(self, path):
+            def deco(fn):
+                children[path] = fn
+                # names only, nothing symbolic: run the watch untraced (under
+                # the tracer `set - dict.keys()` is a lazy view and the
+                # registration inside the loop trips over it)
+                from crosshair.tracers import NoTracing
+                with NoTracing():
+                    fn([APP] if 'monitor' in path else
+                       ['%s#%010d' % (APP, i + 1)
+                        for i in range(spec['cur0'])])
+                return fn
+            return deco
+
+    def _existing_data_watch(_zk, path):
+        def deco(fn):
+            data_watch[path] = fn
+            fn(str(n0), object(), None)
+            return fn
+        return deco
+
+    class _Sleeper(_VT):
+        def sleep(self, _n):
+            k = script['step']
+            script['step'] = k + 1
+            if k == 0:
+                self.now = t[1]
+            elif k == 1:
+                # re-configuration arrives; from now on nothing is running
+                self.now = t[2]
+                list(data_watch.values())[0](str(n1), object(), None)
+                from crosshair.tracers import NoTracing
+                with NoTracing():
+                    [fn([]) for p_, fn in children.items() if 'sched' in p_]
+                self.now = t[3]
+            elif k <= EVALS:
+                self.now = t[2 + k]
+            else:
+                raise _Stop()
+
+    sl = _Sleeper()
+    am.time = sl
+    sl.now = t[0]
+
+    holder = {}
+    real_reevaluate = _REAL.setdefault('reevaluate', am.reevaluate)
+
+    def reevaluate(api_url, alert_f, state, zkclient, last_waited):
+        holder['state'] = state
+        rc = real_reevaluate(api_url, alert_f, state, zkclient, last_waited)
+        conf = state['monitors'].get(APP)
+        if conf is not None:
+            conf['_after_%d' % script['step']] = conf['available']
+        return rc
+    am.reevaluate = reevaluate
+
+    def post(urls, url, payload=None, headers=None, **_kw):
+        conf = holder['state']['monitors'].get(APP)
+        calls.append({'step': script['step'], 'payload': payload,
+                      'before': conf['available'] if conf else None,
+                      'conf': conf})
+        return None
+    am.restclient.post = post
+    am.zkutils.update = lambda *a, **k: None
+    am.zkwatchers.ExistingDataWatch = _existing_data_watch
+    am.masterapi.get_suspended_appmonitors = lambda zk: {}
+    am.make_alerter = lambda *a, **k: (lambda *a_, **k_: None)
+    # exceptions inside the callbacks must surface, not end the process
+    am.utils = type('U', (), {'exit_on_unhandled': staticmethod(lambda f: f)})
+
+    class _Ctx:
+        cell = 'c'
+
+        class zk:
+            conn = _ZK()
+    am.context = type('C', (), {'GLOBAL': _Ctx})
+    _install_numeric_shims(S, am)
+    try:
+        am._run_sync('http://api', '/nonexistent', False)
+    except _Stop:
+        pass
+    finally:
+        am.reevaluate = real_reevaluate
+    S.reach('reconfigured')
+    S.check('C20:evaluations_did_not_run', script['step'] == EVALS + 2)
+    # creates requested after the re-configuration; the amount of each is the
+    # number of tokens taken (post happens before the balance is reduced and
+    # nothing else touches it until the next evaluation refills it)
+    later = [c for c in calls if c['step'] >= 2 and c['payload'] == {}]
+    total = z3.IntVal(0)
+    for i, c in enumerate(later):
+        nxt = [d for d in calls if d['step'] > c['step'] and
+               d['payload'] == {}]
+        # balance right after this evaluation = balance the conf object held
+        # when the evaluation returned; reevaluate() only refills at the start
+        # of the next one, recorded below
+        after = c['conf'].get('_after_%d' % c['step'])
+        used = _x3600(c['before']) - _x3600(after)
+        S.check('C20:requested_less_than_one', used >= 3600)
+        total = total + used
+    if later:
+        S.reach('created_after_reconfiguration')
+    last_t = S.z(t[2 + EVALS])
+    S.check('C20:creates_after_reconfiguration_exceed_new_budget',
+            total <= 2 * n1 * 3600 + 2 * n1 * (last_t - S.z(t[2])),
+            {'new_target': n1, 'old_target': n0, 'creates': len(later)})
+    if n1 == 0:
+        S.check('C20:create_although_nothing_missing', not later)
+
+
+def harness(S, spec):
+    if spec.get('kind') == 'reconfig':
+        return harness_reconfig(S, spec)
+    import logging
+    logging.disable(logging.CRITICAL)
+    from treadmill import restclient
+    from treadmill.sproc import appmonitor as am
+    am.time = VT
+    _install_numeric_shims(S, am)
     VT.now = S.int('now', NOW0, NOW0 + 10 ** 6)
     calls = []
     outcome = spec['outcome']
@@ -241,7 +397,11 @@ def harness(S, spec):
 
 
 META = {
-    'functions_encoded': ['sproc.appmonitor.reevaluate'],
+    'functions_encoded': ['sproc.appmonitor.reevaluate',
+                          'sproc.appmonitor._run_sync (watch callbacks '
+                          '_scheduled_watch, _appmonitors_watch, '
+                          '_monitor_data_watch; loop)'],
     'reach_required': ['acted', 'created', 'deleted', 'create_succeeded',
-                       'no_monitor'],
+                       'no_monitor', 'reconfigured',
+                       'created_after_reconfiguration'],
 }
